@@ -32,6 +32,10 @@ chk("C07","exploration",
     "Same engine on group (subscriber limit 5) and p2p topics with arbitrary mode strings: every change between the before/after store rows of a step is attributed to the actor and judged against the authorisation rules of the property; bans and restrictions are driven through removal + re-subscription; p2p participant/mode bounds, sys/me/fnd admission and the subscriber limit are asserted after every step. Also carries the C05 wire clauses: mode = want & given on every acs object seen, and replay of {pres acs} notifications by a second session on 'me', by the owner's session in the topic and by a proxy Topic through updateAcsFromPresMsg must reproduce the stored modes.",
     "vfmem mirrors the adapter contract; sequential requests; anonymous-level subscribers are exercised only on sys (C03).",
     "row-diff attribution oracle + notification replay shadow tables","sim","DESIGN.md 3/C07")
+chk("C08","fault_enumeration",
+    "Whole-server runs with three monitors: (1) after every request of a random metadata/publish/note/delete sequence on grp and p2p topics the loaded topic's cached fields are compared with the store rows at logical quiescence; (2) reload differential: a fixed probe set answered by every attached subscriber before and after a real idle unload + reload must be identical; (3) for 16 request kinds every store write of the request is failed once (failed => store unchanged; cache = store in every case) and for 7 request kinds the process is SIGKILLed before/after each of the first store writes and right after the acknowledgement, restarted from the snapshot and probed (acknowledged => the probes equal those of an uncrashed run). Store-failure and crash points are enumerated completely for the listed request kinds; request sequences are sampled.",
+    "vfmem mirrors the adapter contract; only single store failures are injected; multi-write handlers without a transaction that fail half-way are recorded in known_findings.json (ownership transfer, set desc public+private, del msg, publish write order, read note dragging recv).",
+    "hooked-state invariant (cache vs rows) + reload differential + store fault/crash enumeration","sim","DESIGN.md 3/C08")
 chk("C05","exploration",
     "Runtime oracle over the real AccessMode code: every one of the 256x256 permission pairs is pushed through Delta/ApplyDelta/ApplyMutation and every set through text/JSON/SQL round trips (finite core enumerated completely); all short strings over the mode alphabet plus junk are compared with an independent reference for the stated laws (unknown letters rejected and target unchanged, empty = no change, N = none). The on-the-wire intersection law and the notification-replay clause are monitored in the C07 engine runs and reported there.",
     "Reference parser in harness/types/c05.go is trusted; strings longer than 5 are sampled, not enumerated; proxy replay through updateAcsFromPresMsg is exercised by the sim engine (C07), not here.",
